@@ -129,6 +129,17 @@ func (c07) Run(t *tape.Tape, tier Tier) *Result {
 					Expected: tt[i].GoType + " " + fmt.Sprintf("%q", tt[i].Text), Observed: te[i].GoType + " " + fmt.Sprintf("%q", te[i].Text), Where: where})
 			}
 		}
+		// the standard library's view of the chain (Unwrap methods, std Is)
+		stdChain := func(x error) string {
+			var b strings.Builder
+			for c, i := x, 0; c != nil && i < 64; c, i = goerrors.Unwrap(c), i+1 {
+				fmt.Fprintf(&b, "%T|%s;", c, norm(obs.S(func() string { return c.Error() })))
+			}
+			return b.String()
+		}
+		if se, st := stdChain(e), stdChain(twin); se != st {
+			res.add(Violation{Prop: "C07", Oracle: "std-unwrap-sees-hidden", Culprit: typeOfLayer(te[0]), Expected: short(st), Observed: short(se), Where: where})
+		}
 		ra, rb := errors.UnwrapAll(e), errors.UnwrapAll(twin)
 		if fmt.Sprintf("%T", ra) != fmt.Sprintf("%T", rb) || norm(errors.Cause(e).Error()) != norm(errors.Cause(twin).Error()) {
 			res.add(Violation{Prop: "C07", Oracle: "root-cause", Culprit: fmt.Sprintf("%T", rb), Expected: fmt.Sprintf("%T", rb), Observed: fmt.Sprintf("%T", ra), Where: where})
@@ -162,6 +173,12 @@ func (c07) Run(t *tape.Tape, tier Tier) *Result {
 			}
 			if it == 'T' {
 				anyT = true
+			}
+			if isCompare {
+				se, st := obs.S(func() string { return fmt.Sprint(goerrors.Is(e, x)) }), obs.S(func() string { return fmt.Sprint(goerrors.Is(twin, x)) })
+				if se != st {
+					res.add(Violation{Prop: "C07", Oracle: "std-is-sees-hidden", Culprit: probeClass(probeNames[i]), Expected: st, Observed: se, Where: where + " probe=" + probeNames[i]})
+				}
 			}
 			if ie != it {
 				res.add(Violation{Prop: "C07", Oracle: "is-sees-hidden", Culprit: probeClass(probeNames[i]) + ":" + string(it) + "->" + string(ie),
@@ -268,6 +285,16 @@ func (c07) Run(t *tape.Tape, tier Tier) *Result {
 		}
 	}
 	walkTok(spec, false)
+	// the *WithMessage variants replace the text even with an empty message
+	if len(hiddenErrs) > 0 {
+		h := hiddenErrs[0]
+		if got := errors.HandledWithMessage(h, "").Error(); got != "" {
+			res.add(Violation{Prop: "C07", Oracle: "withmessage-replaces-text", Culprit: "errors.HandledWithMessage(empty)", Expected: `""`, Observed: fmt.Sprintf("%q", got)})
+		}
+		if got := errors.HandledInDomainWithMessage(h, errors.NamedDomain("d"), "").Error(); got != "" {
+			res.add(Violation{Prop: "C07", Oracle: "withmessage-replaces-text", Culprit: "errors.HandledInDomainWithMessage(empty)", Expected: `""`, Observed: fmt.Sprintf("%q", got)})
+		}
+	}
 	verbose0 := obs.Fmt("%+v", e0)
 	for n, toks := range hiddenTokens {
 		for _, tok := range toks {
